@@ -133,6 +133,7 @@ def run(ctx) -> None:
         ctx.require(key in defs, f'HIP_RA_X.Calculate: `{key}` is never assigned')
         return defs[key][0]
 
+    ctx.local_anchor(f, 'fluid_net_enthalpy', 'fluid_net_entropy')
     from gxstat.symflow import Def
     local_binds = {k: Def(k, v[0].value, {}, v[0].lineno) for k, v in defs.items() if '.' not in k and len(v) == 1 and k.isidentifier()
                    and k not in ('fluid_net_enthalpy', 'fluid_net_entropy')}
